@@ -87,6 +87,8 @@ Spec == Init /\ [][Next]_vars
 Done == m.pc = "done"
 SelectionRef == Done => /\ mi.seg = RefSeg(font) /\ mi.umap = RefUmap(font) /\ mi.vertical = RefVertical(font)
                         /\ mi.key = RefKey(font)
+\* NOT expected to hold while Dev is non-empty
+AsCodedSelection == Done => m.key = RefKey(font)
 DevLocal == Done /\ m # mi => /\ [m EXCEPT !.key = mi.key] = mi
                               /\ "ToUnicodeByCID" \in Dev /\ mi.umap = "file"
 \* PDFCIDFont.to_unichr + (cid:N): `has` = the selected source has an entry for the CID
